@@ -216,6 +216,22 @@ def r_kernel_call_typestates(ctx, rules=('R15.1', 'R16.2', 'R18.4'), only_funcs:
                                 if tg and tg[0][0].name == 'resolve_keywords' and isinstance(st.targets[0], ast.Tuple) \
                                         and isinstance(st.targets[0].elts[0], ast.Name) and st.targets[0].elts[0].id == a.id:
                                     src_ok = True
+                        if not res and src_ok:
+                            # the keyword itself was resolved in kwargs before it was read: `kwargs['MRTS'] = default_thresh(..)`
+                            # (under the string test) precedes `<name>, _ = resolve_keywords(**kwargs)`
+                            rk = [k for k, st in enumerate(f.node.body[:idx + 1]) if isinstance(st, ast.Assign) and isinstance(st.value, ast.Call)
+                                  and (wm.callees(f, st.value) or [(None,)])[0][0] is not None
+                                  and wm.callees(f, st.value)[0][0].name == 'resolve_keywords' and isinstance(st.targets[0], ast.Tuple)
+                                  and isinstance(st.targets[0].elts[0], ast.Name) and st.targets[0].elts[0].id == a.id]
+                            if rk:
+                                for k2 in range(rk[-1]):
+                                    loc0 = next((k_ for k_, v_ in _keyword_locals(wm, f).items() if v_ == 'MRTS'), 'MRTS')
+                                    for cand in {loc0, a.id} | {n_.targets[0].elts[0].id for n_ in f.node.body[:rk[-1]]
+                                                                if isinstance(n_, ast.Assign) and isinstance(n_.targets[0], ast.Tuple)
+                                                                and n_.targets[0].elts and isinstance(n_.targets[0].elts[0], ast.Name)}:
+                                        d = _kwargs_mrts_resolution_at(f, k2, cand, wm)
+                                        if d is not None:
+                                            res = [(d, k2)]
                         if res and src_ok:
                             # threshold computed from all train parameters of this function
                             dcall = res[-1][0]
@@ -307,7 +323,7 @@ def r_kernel_call_typestates(ctx, rules=('R15.1', 'R16.2', 'R18.4'), only_funcs:
                 continue
             roots = set()
             for aa in dcall.args:
-                roots |= wm._train_roots(aa)
+                roots |= wm.train_roots_in(f, aa)
             t = f"{f.name}: 'auto' is replaced in kwargs by default_thresh of the (reconciled) train list before any pair is evaluated"
             pr = wm.reconcile_prologue(f)
             good = bool(tps) and tps <= roots and pr is not None and pr['index'] < k
@@ -449,8 +465,16 @@ def r05_1_route_identity(ctx, rule: str = 'R05.1') -> List[Ob]:
             ren_p = {n: f"T{k + 1}" for k, n in enumerate(wt)}
             ren_c.update(_keyword_locals(wm, f))
             ren_p.update(_keyword_locals(wm, fam.wrapper))
-            ac = _norm_pairwise([_norm_arg(_inline_train_locals(f, a), ren_c) for a in ccalls[0].args])
-            ap = _norm_pairwise([_norm_arg(_inline_train_locals(fam.wrapper, a), ren_p) for a in pcalls[0].args])
+            def role_arg(g, call_, a_):
+                # a local that holds `0.0 if P is None else P` plays the role of P (R16.2 decides the conversion itself)
+                if isinstance(a_, ast.Name):
+                    x_ = _none_default_select(g, a_.id, call_)
+                    if x_ is not None:
+                        return ast.Name(id=x_, ctx=ast.Load())
+                return a_
+            ac = _norm_pairwise([_norm_arg(_inline_train_locals(f, role_arg(f, ccalls[0], a)), ren_c) for a in ccalls[0].args])
+            ap = _norm_pairwise([_norm_arg(_inline_train_locals(fam.wrapper, role_arg(fam.wrapper, pcalls[0], a)), ren_p)
+                                 for a in pcalls[0].args])
             if ac == ap:
                 obs.append(ok(rule, t, f.loc(ccalls[0]), construct=f"{_fn(f)}::compiled-call", detail=', '.join(ac)))
             else:
@@ -666,6 +690,11 @@ def r14_1_dispatchers(ctx, rule: str = 'R14.1') -> List[Ob]:
                 detail = f"kernels reached: bi {sorted(s2)}, multi {sorted(sm)}"
             if a2 == [f"{va}[0]", f"{va}[1]"] and k2 and same_family:
                 obs.append(ok(rule, t, f.loc(c2), construct=f"{_fn(f)}::bi", detail=detail))
+            elif a2 == [f"{va}[0]", f"{va}[1]"] and k2 and tg2 and tgm and not s2 and not sm:
+                # no backend routine is reached from either arm: the backend selection of these functions is not resolved
+                # (no `from .cython.x import y` dispatch site), so which measure they compute cannot be compared
+                obs.append(inconclusive(rule, t, f.loc(c2), f"no dispatch site reached from `{g2}` or `{g1}`: backend selection not resolved",
+                                        construct=f"{_fn(f)}::bi"))
             else:
                 obs.append(violation(rule, t, f.loc(c2), key=f"{_fn(f)}::bi-arm",
                                      detail=f"len==2 -> {g2}({', '.join(a2)}, **kw={k2}); same measure={same_family}; {detail}"))
@@ -729,6 +758,9 @@ def r14_4_positional_binding(ctx, rule: str = 'R14.4') -> List[Ob]:
                 for kwd in n.keywords:
                     if kwd.arg in ('interval', 'max_tau', 'MRTS', 'RI', 'indices') and kwd.arg in scope and \
                             not (isinstance(kwd.value, ast.Name) and kwd.value.id in tracked):
+                        if kwd.arg == 'interval' and isinstance(kwd.value, ast.Constant) and kwd.value.value is None \
+                                and _interval_is_none_at(f, n):
+                            continue        # `interval=None` where the parameter is known to be None: the same value
                         title = f"{f.name}: keyword `{kwd.arg}=` of {t.name}() is fed from the variable of the same name"
                         obs.append(violation(rule, title, f.loc(n), key=f"{_fn(f)}::{t.name}::kw:{kwd.arg}<-expr",
                                              detail=f"`{ast.unparse(kwd)}` although `{kwd.arg}` is in scope"))
@@ -813,6 +845,10 @@ def r14_5_keyword_flow(ctx, rule: str = 'R14.5') -> List[Ob]:
                     if p in tp and p != 'indices' or (p == 'indices' and p in tp):
                         title = f"{f.name}: `{p}` is forwarded to {t_.name}() which accepts it"
                         # a function-valued parameter pre-bound elsewhere (partial) counts as forwarded
+                        if p == 'interval' and p in bound_expr and isinstance(bound_expr[p], ast.Constant) \
+                                and bound_expr[p].value is None and _interval_is_none_at(f, n):
+                            obs.append(ok(rule, title, f.loc(n), construct=f"{_fn(f)}::{t_.name}::{p}"))
+                            continue
                         if p in bound_expr and not (isinstance(bound_expr[p], ast.Name) and bound_expr[p].id == p):
                             obs.append(violation(rule, title, f.loc(n), key=f"{_fn(f)}::{t_.name}::not-forwarded:{p}",
                                                  detail=f"`{p}` of {t_.name}() is bound to `{ast.unparse(bound_expr[p])[:60]}` although this "
